@@ -982,10 +982,10 @@ End ZArrays.
 Lemma zread_bytes_empty r : zread_bytes (p_i32 0 ++ r) = Ok ([], r).
 Proof. rewrite zread_bytes_unfold. rewrite zread_i32_print by (unfold in_i32; lia). reflexivity. Qed.
 
-(* the forced hypothesis: decoding depth at least 1 (depth 0 is the model's EOutOfFuel) *)
+(* the forced hypothesis: decoding depth at least 1 (with depth 0 even an empty set is refused; the code starts at MAX_COMPRESSION_DEPTH) *)
 Lemma from_slice_nil cz d validate req : from_slice cz (S d) validate req [] = Ok [].
 Proof. reflexivity. Qed.
-Example from_slice_depth0 : forall cz validate req, from_slice cz 0 validate req [] = Err EOutOfFuel.
+Example from_slice_depth0 : forall cz validate req, from_slice cz 0 validate req [] = Err EUnsupportedCompression.
 Proof. reflexivity. Qed.
 
 Definition wf_fetch_part_nomsgs (p : w_fetch_part) : Prop := wf_fetch_part p /\ wfe_message_set p = [].
